@@ -515,11 +515,21 @@ func toInt(v any) (int, bool, bool) {
 	case json.Number:
 		i, err := v.Int64()
 		if err != nil {
-			if _, err = v.Float64(); err != nil {
+			// Integers may also be spelled with a fraction or an exponent.
+			d, err := decimal128.Parse(v.String())
+			if err != nil {
 				return 0, false, false
 			}
 
-			return 0, true, false
+			if d.IsNaN() || d.IsInf(0) || !decimal128.Trunc(d).Equal(d) {
+				return 0, true, false
+			}
+
+			var ok bool
+			i, ok = d.Int64()
+			if !ok {
+				return 0, true, false
+			}
 		}
 
 		if i > math.MaxInt || i < math.MinInt {
